@@ -73,6 +73,25 @@ def _prod_atom(sx, paths, what):
     return a, ''
 
 
+def check_pure(model, rep, sx):
+    """rules and the timer answer from the present state only: no stored (cached) state"""
+    for cls in sorted(c for c in model.subclasses('RuleBase', strict=True) if not model.is_abstract_class(c)) + ['Timer']:
+        meth = 'is_active' if cls == 'Timer' else 'apply'
+        m = model.find_member(cls, meth)
+        if m is None:
+            continue
+        try:
+            outs = sx.run(m.node, m.module, cls)
+        except CannotDecide as e:
+            rep.cannot('C15.pure', f'{cls}.{meth}', str(e), m.loc)
+            continue
+        stores = sorted({f'{e[1]}.{e[2]}' for o in outs for e in o.state.effects if e[0] in ('store', 'setitem')})
+        selfreads = set()
+        rep.decide(not stores, 'C15.pure', f'{cls}.{meth}',
+                   f'the rule stores state when asked ({stores[:3]}): later proposals can be computed from remembered values instead '
+                   f'of the present load/state (e.g. a cached minimum duty cycle after reset and a changed load)', loc=m.loc)
+
+
 def check_timer(model, rep, sx):
     m, paths, raises = _paths(sx, model, 'Timer', 'is_active')
     spec = SpecCtx(sx, 'Timer', env={'current_time': sx.typed_atom('current_time', ('q', 'Time'))})
@@ -229,6 +248,7 @@ def check(model, rep):
     sx = SX(model)
     sx.loop_handler = reduction_loop
     sx.variable_kinds = VARIABLE_KINDS
+    check_pure(model, rep, sx)
     check_timer(model, rep, sx)
     check_constant(model, rep, sx)
     check_reach(model, rep, sx)
